@@ -15,7 +15,7 @@ _REF = json.load(open(os.path.join(os.path.dirname(os.path.dirname(__file__)), "
 
 @rule(
     "R20a",
-    ["C01", "C11", "C14", "C06"],
+    ["C01", "C11", "C14", "C06", "C04"],
     """CLASS TAXONOMY: which optimizer rewrites apply to an operator is decided by its base classes - Elemwise (Head / Tail /
     Lengths are pushed below it, filters may pass), Blockwise (partition selections are pushed below it, it is fused),
     PartitionsFiltered - and by inherited flags. A class of the reference tree that was NOT in one of these families
